@@ -352,6 +352,18 @@ CLAIMED["C15"]["text"] += (" Generated obligations also fix WHICH TikZ statement
     "labels are proved balanced for brace-free names and families at any wrap width (C15Label).")
 CLAIMED["C17"]["text"] += " distance(u, v) is the length of the path through the deepest common ancestor and is minimal (C17Dist)."
 
+# ---- translator ties for C19 / C20, stateful histories ----
+CLAIMED["C19"]["text"] += (" Second tie: toposort.py is translated mechanically from the source text on every run; generated toposort "
+    "is proved equal to the model and generated toposort_all is proved, for every iteration order of its sets, to return "
+    "exactly the topological orderings once each (C19Code); graceful fallback as for C18.  Call / edit-in-place / call "
+    "histories on one graph object are part of the correspondence.")
+CLAIMED["C19"]["technique"] = "Lean 4 proof (greedy-removal invariant) + translator-generated equivalence obligations + exhaustive differential correspondence"
+CLAIMED["C20"]["text"] += (" Second tie: the DisjointSet class is translated mechanically from the source text on every run and every "
+    "generated method is proved equal to the model's operation under the model's invariant (C20Code).")
+CLAIMED["C20"]["technique"] = "Lean 4 proof (rank invariant, BUILD soundness and completeness) + translator-generated equivalence obligations + exhaustive differential correspondence"
+CLAIMED["C09"]["text"] += (" Histories on one object (re-run on the same input object, unit costs changed in place and back) are part of "
+    "the metamorphic runs.")
+
 PENDING = "check not built yet in this round (planned: Lean 4 model + proof + correspondence, see DESIGN.md section 7)"
 
 
